@@ -49,6 +49,36 @@ def mask_term(I, batched_x, dbk):
     return ("elem", ("rebatched", flat, batched_x), tuple(dbk))
 
 
+def normalise_mask(m, batched_x):
+    """Other spellings of the documented mask, brought to `arange(total) >= n_states`:
+    * `max(total - n_states, 0)` with total = the slot count of the batched array is `total - n_states`, because the slots cover the
+      states (total >= n_states: the coverage fact decided by C18 R18.4);
+    * `concatenate([zeros(a, bool), ones(b, bool)])` is `arange(a + b) >= a` (a leading False, b trailing True)."""
+    from ..terms import T_add, T_sub, ZERO
+    total = T_mul(T_mul(("app", "shape", (batched_x, K(0))), ("app", "shape", (batched_x, K(1)))), ("app", "shape", (batched_x, K(2))))
+    pad = T_sub(total, N_STATES)
+    mp = {}
+    for t in subterms(m):
+        if t[0] == "app" and t[1] == "pymax" and len(t[2]) == 2 and set(t[2]) == {ZERO, pad}:
+            mp[t] = pad
+    m2 = subst(m, mp) if mp else m
+    mp2 = {}
+    for t in subterms(m2):
+        if t[0] == "app" and t[1] == "hstack" and len(t[2]) == 2:
+            z, o = t[2]
+            def arr(x, names):
+                if x[0] == "app" and x[1] in names and x[2]:
+                    pos = [a for a in x[2] if a[0] != "kw"]
+                    kws = {a[1]: a[2] for a in x[2] if a[0] == "kw"}
+                    if len(pos) == 1 and set(kws) <= {"dtype"} and kws.get("dtype", ("builtin", "bool")) in (("builtin", "bool"), ("mod", "jnp.bool_"), ("mod", "np.bool_")) and "dtype" in kws:
+                        return pos[0]
+                return None
+            a_, b_ = arr(z, ("zeros", "np.zeros", "jnp.zeros")), arr(o, ("ones", "np.ones", "jnp.ones"))
+            if a_ is not None and b_ is not None:
+                mp2[t] = ("app", "cmpLtE", (a_, ("app", "arange", (T_add(a_, b_),))))
+    return subst(m2, mp2) if mp2 else m2
+
+
 def analyse_recurrence(sw: SaviSweep):
     """Returns dict of named boolean facts + details about one symbolic scan step."""
     I = sw.I
@@ -98,11 +128,21 @@ def analyse_recurrence(sw: SaviSweep):
     want_mask = mask_term(I, row[1], dbk)
     want_val = ("app", "where", (want_mask, cur, bell))
     out["value_ok"] = same(val_k, want_val)
+    if not out["value_ok"] and val_k[0] == "app" and val_k[1] == "where" and len(val_k[2]) == 3:
+        nm_ = normalise_mask(val_k[2][0], row[1])
+        if nm_ != val_k[2][0]:
+            val_k = ("app", "where", (nm_,) + tuple(val_k[2][1:]))
+            out["value_ok"] = same(val_k, want_val)
     if not out["value_ok"]:
         # diagnose
         if val_k[0] == "app" and val_k[1] == "where" and len(val_k[2]) == 3:
             m, c_, n_ = val_k[2]
             out["mask_ok"] = same(m, want_mask)
+            if not out["mask_ok"] and not any(t[0] == "app" and t[1].startswith("cmp") and any(u[0] == "app" and u[1] == "arange" for u in subterms(t)) for t in subterms(m)):
+                # not a comparison over the flat slot index at all (a table, a concatenation, a cumulative count, ..): the rule has no normal form
+                # for this way of building a mask, so it gives no verdict
+                raise AnalysisError("SemiAsyncValueIteration: the padding mask is built by a construct outside the rule's vocabulary (a comparison of the flat "
+                                    f"slot index arange(total) with n_states): {show_norm(m)[:200]}")
             out["keep_ok"] = same(c_, cur)
             out["new_ok"] = same(n_, bell)
             out["details"]["mask"] = show_norm(m)[:200]
@@ -148,6 +188,12 @@ def perm_rewrite(t):
         p_, val = t2[2], t2[3]
         if val == ("app", "arange", (("app", "len", (p_,)),)) and is_permutation(p_):
             return ("app", "argsort", (p_,))
+    # zeros_like(v).at[p].set(v) for a permutation p of all positions writes every position once: out[p[k]] = v[k], i.e. out[m] = v[argsort(p)[m]]
+    if t2[0] == "scatter" and len(t2) == 4 and (t2[1] == ("const", 0) or is_zero_like(t2[1])) and is_permutation(t2[2]) \
+            and t2[3][0] == "lam" and t2[3][2] == "state":
+        m_ = fresh("state")
+        body = subst(t2[3][3], {t2[3][1]: ("elem", ("app", "argsort", (t2[2],)), (m_,))})
+        return perm_rewrite(("lam", m_, "state", body))
     if t2[0] == "elem" and len(t2[2]) == 1:
         p, i = t2[1], t2[2][0]
         if i[0] == "elem" and len(i[2]) == 1 and i[1] == ("app", "argsort", (p,)):
